@@ -10,3 +10,7 @@ chk('C02', 'complete operand-kind cross product + Hypothesis floats vs own scala
     'The full cross product of a 38-45 value pool x 12 binary + 3 unary operators is enumerated in two spellings (cell values through a Dispatcher, literals through Parser.compile) and compared with an independent implementation of Excel\'s coercion / error / power / display / ordering rules; an oracle-free trichotomy + transitivity check over all pool triples; 5k-200k random float pairs. Enumeration of kinds is the right level: the rules are per kind pair.',
     'Trusts xlref.core (my reading of Excel\'s operator rules). Ordering of text containing punctuation/non-ASCII is collation dependent and only (in)equality is asserted there; number display is asserted exactly only for <=15 significant digits in [1e-9,1e15).',
     'DESIGN.md 2/C02')
+chk('C03', 'Hypothesis workbook generator vs independent workbook evaluator; differential over load paths, orders and hash seeds',
+    'Random acyclic multi-book workbooks (all reference forms incl. names, array formulas, whole columns, unpopulated cells) are evaluated by an independent reference evaluator and compared cell by cell with the model loaded from a dict (several key orders) and from xlsx files (every book order, permuted sheet order); batches are re-run in child processes under other PYTHONHASHSEED values. Search, not enumeration: the space of workbooks is unbounded.',
+    'Trusts xlref.wb on a restricted formula grammar; cells whose reference value is UNSURE are not asserted; hash seeds and orders are sampled (2-4 seeds, 3-5 orders per workbook).',
+    'DESIGN.md 2/C03')
